@@ -105,9 +105,10 @@ def destroy_inst():
 
 def instances(tier):
     lens = range(0, 6) if tier == "quick" else range(0, 8)
-    out = [list_inst(2, 0), list_inst(1, 0)]
+    # alphabet 1 (with characters that start no token) also in quick: "(#" inside a list (seed C20-E)
+    out = [list_inst(2, 0), list_inst(1, 0), list_inst(2, 1)]
     if tier != "quick":
-        out = [list_inst(3, 0)] + out + [list_inst(2, 1), list_inst(1, 1)]
+        out = [list_inst(3, 0)] + out + [list_inst(1, 1)]
     out += [destroy_inst()]
     out += [token_inst(n, op) for n in reversed(lens) for op in (0, 1)]
     return out
